@@ -191,20 +191,26 @@ Record group := mkGroup { g_codes : option (list Z); g_prof : list column; g_nsi
 
 Definition leaf_group (codes : list Z) : group := mkGroup (Some codes) [] 1 (Z.of_nat (length codes)).
 
-(* raw path over side a (len_a entries), as left in tmp_path after add_gap_info_to_path_n *)
-Definition align_pair (ga gb : group) : option (list Z) :=
+(* which kernel runs, with which operand as side 1 (the shorter sequence / profile; the profile for
+   sequence-profile), and whether the path has to be mirrored back onto side a *)
+Definition kernel_of (ga gb : group) : kernel A * Z * Z * bool :=
   let la := g_len ga in let lb := g_len gb in
   match g_codes ga, g_codes gb with
-  | Some sa, Some sb =>
-    if la <? lb then raw_path A (ss_kernel sa sb) la lb
-    else option_map (mirror_path la) (raw_path A (ss_kernel sb sa) lb la)
-  | Some sa, None =>
-    option_map (mirror_path la) (raw_path A (sp_kernel (g_prof gb) sa (g_nsip gb)) lb la)
-  | None, Some sb => raw_path A (sp_kernel (g_prof ga) sb (g_nsip ga)) la lb
-  | None, None =>
-    if la <? lb then raw_path A (pp_kernel (g_prof ga) (g_prof gb)) la lb
-    else option_map (mirror_path la) (raw_path A (pp_kernel (g_prof gb) (g_prof ga)) lb la)
+  | Some sa, Some sb => if la <? lb then (ss_kernel sa sb, la, lb, false) else (ss_kernel sb sa, lb, la, true)
+  | Some sa, None => (sp_kernel (g_prof gb) sa (g_nsip gb), lb, la, true)
+  | None, Some sb => (sp_kernel (g_prof ga) sb (g_nsip ga), la, lb, false)
+  | None, None => if la <? lb then (pp_kernel (g_prof ga) (g_prof gb), la, lb, false)
+                  else (pp_kernel (g_prof gb) (g_prof ga), lb, la, true)
   end.
+
+(* raw path over side a (len_a entries), as left in tmp_path after add_gap_info_to_path_n *)
+Definition align_pair (ga gb : group) : option (list Z) :=
+  let '(k, l1, l2, mir) := kernel_of ga gb in
+  option_map (fun p => if mir then mirror_path (g_len ga) p else p) (raw_path A k l1 l2).
+
+(* every meetup of that run, in the order they are made: (max, transition, meet) *)
+Definition align_meets (ga gb : group) : list (T * Z * Z) :=
+  let '(k, l1, l2, _) := kernel_of ga gb in meet_trace A k l1 l2.
 
 (* profiles as do_align prepares them: a leaf gets a fresh profile, a profile gets its gap penalties
    scaled by the member count of the other side *)
@@ -214,7 +220,7 @@ Definition prepared_profile (g : group) (other_nsip : Z) : list column :=
   | None => set_gap_penalties (g_prof g) other_nsip
   end.
 
-Record merge_out := mkMO { mo_raw : list Z; mo_ops : list Z; mo_group : group }.
+Record merge_out := mkMO { mo_raw : list Z; mo_ops : list Z; mo_group : group; mo_meets : list (T * Z * Z) }.
 
 Definition do_align (ga gb : group) (is_last : bool) : option merge_out :=
   let pa := prepared_profile ga (g_nsip gb) in
@@ -228,7 +234,7 @@ Definition do_align (ga gb : group) (is_last : bool) : option merge_out :=
     | None => None
     | Some ops =>
       let newp := if is_last then [] else update_profile ops pa pb (g_nsip ga) (g_nsip gb) in
-      Some (mkMO raw ops (mkGroup None newp (g_nsip ga + g_nsip gb) (Z.of_nat (length ops))))
+      Some (mkMO raw ops (mkGroup None newp (g_nsip ga + g_nsip gb) (Z.of_nat (length ops))) (align_meets ga' gb'))
     end
   end.
 
@@ -240,7 +246,7 @@ Fixpoint set_group (l : list (option group)) (i : nat) (g : group) : list (optio
   | [], _ => []
   end.
 
-Fixpoint run_tasks (groups : list (option group)) (tasks : list (nat * nat * nat)) : option (list (nat * nat * nat * list Z * list Z)) :=
+Fixpoint run_tasks (groups : list (option group)) (tasks : list (nat * nat * nat)) : option (list (nat * nat * nat * list Z * list Z * list (T * Z * Z))) :=
   match tasks with
   | [] => Some []
   | (a, b, c) :: rest =>
@@ -251,14 +257,14 @@ Fixpoint run_tasks (groups : list (option group)) (tasks : list (nat * nat * nat
       | Some mo =>
         match run_tasks (set_group groups c (mo_group mo)) rest with
         | None => None
-        | Some r => Some ((a, b, c, mo_raw mo, mo_ops mo) :: r)
+        | Some r => Some ((a, b, c, mo_raw mo, mo_ops mo, mo_meets mo) :: r)
         end
       end
     | _, _ => None
     end
   end.
 
-Definition progressive (codes : list (list Z)) (tasks : list (nat * nat * nat)) : option (list (nat * nat * nat * list Z * list Z)) :=
+Definition progressive (codes : list (list Z)) (tasks : list (nat * nat * nat)) : option (list (nat * nat * nat * list Z * list Z * list (T * Z * Z))) :=
   let n := length codes in
   run_tasks (map (fun c => Some (leaf_group c)) codes ++ repeat None (n - 1)) tasks.
 End Numeric.
